@@ -27,6 +27,14 @@ MODELS = ["general", "3gpp1", "freespace", "metis", "hata"]
 DEVS = ["FcRejectKeepsValue", "NSetterKeepsC", "FcSetterKeepsC", "ClampArrayOnly", "HataRejectAssigns"]
 FID_FC = "C13-freespace-fc-reject-not-atomic"
 TOL = 1e-9
+
+
+def tlc_par(default):
+    """concurrent TLC processes started by this check (VERIF_PROCS caps it on a shared machine)"""
+    import os
+    v = int(os.environ.get("VERIF_PROCS", "0") or 0)
+    return max(1, min(default, v)) if v else default
+
 C_LIGHT = 299792458.0
 
 # irrational constants of the forms, from the DOCUMENTATION of the models:
@@ -372,6 +380,15 @@ def run_rel(model, o, q):
         for name in q["req"]:
             if res.get(name):
                 return f"(rel) {name}: {res[name]}"
+        lc = q.get("lc") or {}
+        if lc.get("on"):
+            hms = fval(lc["hms"])
+            a = (3.2 * math.log10(11.75 * hms) ** 2 - 4.97) if lc["above300"] else (8.29 * math.log10(1.54 * hms) ** 2 - 1.10)
+            want = ev(lc["base"], model) - a
+            kind, x = outcome_of(lambda: call_dB(model, o, 1.0))
+            if kind != "val" or not close(x, want):
+                return (f"(rel) large city, fc {'>' if lc['above300'] else '<'} 300 MHz: PLdB(1 km) = {x!r}, documented formula "
+                        f"with a(hms) = {a!r} gives {want!r}")
         # the slope per decade is exact in every model
         slopes = q["slope"] if isinstance(q["slope"], dict) else {"0": q["slope"][0]}
         for w, s in slopes.items():
@@ -454,13 +471,17 @@ def explore(ctx, model, r, depth, walks, walk_len, limit):
     rng = random.Random(ctx.seed)
     paths = g.transition_cover(root, max_len=10, rng=rng)
     ncover = len(paths)
-    allp = []
-    for dd in range(1, depth + 2):  # Construct + up to `depth` setters
-        allp += g.all_paths(root, dd)
-    if limit and len(allp) > limit:
-        rng.shuffle(allp)
-        allp = allp[:limit]
-    paths += allp
+    # Construct + every setter sequence of length 0..depth; a length with more than `limit` sequences is sampled
+    cnt = {nd: 1 for nd in g.nodes}
+    exhaustive_to = 0
+    for dd in range(1, depth + 2):
+        cnt = {nd: sum(cnt[g.edges[ei][1]] for ei in g.out.get(nd, ())) for nd in g.nodes}
+        if cnt[root] <= limit:
+            paths += g.all_paths(root, dd)
+            exhaustive_to = dd - 1
+        else:
+            paths += g.random_walks(root, limit, dd, rng)
+    ctx.notes.setdefault("setter_sequences_exhaustive_to_length", {})[model] = exhaustive_to
     paths += g.random_walks(root, walks, walk_len, rng)
     return g, qs, paths, ncover
 
@@ -549,11 +570,11 @@ REFUTE = {"FcRejectKeepsValue": "freespace", "NSetterKeepsC": "freespace", "FcSe
 def model_devs(ctx):
     def one(dev):
         cfg, defs = model_cfg(REFUTE[dev], "quick", dev=[dev])
-        r = tlc.run(MODULE, cfg, defs=defs, workers=2, heap="1g")
+        r = tlc.run(MODULE, cfg, defs=defs, workers=1, heap="1g")
         if not r.violated:
             raise tlc.TlcError(f"deviation {dev} is not detected by the invariants of PathLoss.tla")
         return dev, r.violated
-    with ThreadPoolExecutor(6) as ex:
+    with ThreadPoolExecutor(tlc_par(2)) as ex:
         out = list(ex.map(one, DEVS))
         ra = ex.submit(lambda: tlc.run(ANT, ant_cfg("quick", dev=True, emit=False))).result()
     if not ra.violated:
@@ -578,7 +599,7 @@ def run(ctx):
     import pyphysim.channels.pathloss  # noqa: imported (with matplotlib) once, before any pool forks
     import pyphysim.channels.antennagain  # noqa
     traces = c13_trace.record(ctx)  # process pool: before the TLC threads start
-    with ThreadPoolExecutor(12) as ex:
+    with ThreadPoolExecutor(tlc_par(8)) as ex:
         futs = {m: ex.submit(lambda m=m: tlc.run(MODULE, *model_cfg(m, ctx.tier, emit=True)[:1],
                                                  defs=model_cfg(m, ctx.tier, emit=True)[1], heap="2g")) for m in MODELS}
         fa = ex.submit(lambda: tlc.run(ANT, ant_cfg(ctx.tier)))
